@@ -30,14 +30,15 @@ func vhReset() {
 	vos.Mkdir(vhRoot, vclock.Last())
 }
 
-// vhConf is the base configuration: background collection off, deletes on.
+// vhConf is the base configuration: background collection off (no ticker), the default
+// one hour grace period (so that a collection at Close never removes fresh content),
+// deletes on.
 func vhConf(st config.Store) config.Config {
 	c := config.Config{
 		Storage: config.ConfigStorage{
 			StoreType: st,
 			GC: config.ConfigGC{
-				Frequency:   -1,
-				GracePeriod: -1,
+				Frequency: -1,
 			},
 		},
 		API: config.ConfigAPI{
